@@ -1,6 +1,6 @@
 #!/bin/bash
 # tools/install_seed.sh <ID> <n> : copy a confirmed sub-agent change into /verif/seeded/<ID>-<n>/
-id=$1; n=$2; src=/tmp/wt/$id/_out/$n; dst=/verif/seeded/$id-$n
+id=$1; n=$2; src=${WTBASE:-/tmp/wt}/$id/_out/$n; dst=/verif/seeded/$id-${SEEDNO:-$n}
 mkdir -p $dst
 cp $src/patch.diff $dst/patch.diff
 cp $src/demo_$id.rs $dst/demo_$id.rs
@@ -9,10 +9,10 @@ import json,sys
 src,dst,pid,n=sys.argv[1:]
 try: m=json.load(open(src+'/meta.json'))
 except Exception as e: m={"note":"agent meta.json unreadable: %s"%e}
-out={"seed":f"{pid}-{n}","breaks_property":pid,"summary":m.get("summary"),"needs_to_manifest":m.get("needs_to_manifest"),
+out={"seed":dst.split("/")[-1],"breaks_property":pid,"summary":m.get("summary"),"needs_to_manifest":m.get("needs_to_manifest"),
      "agent_commands":m.get("commands_run"),
      "confirmed_by_me":{"how":"tools/confirm_seed.sh %s %s in the scratch worktree /tmp/wt/%s checked out at /repo HEAD: patch applies, `cargo test --workspace --offline --no-fail-fast` passes except the baseline-failing ui_tests and the demo, demo fails with the change and passes without it"%(pid,n,pid),
-        "log":open(f"/tmp/wt/{pid}/_out/{n}/with_change.log").read().count("test result: ok")},
+        "log":open(src+"/with_change.log").read().count("test result: ok")},
      "detected_by":{}}
 json.dump(out,open(dst+'/meta.json','w'),indent=1)
 PY
